@@ -724,6 +724,46 @@ fn ser_trait_header(trait_: &syn::ItemTrait) -> R {
     ))
 }
 
+/// The items of a trait definition as generation reads them: names, types and signatures
+fn ser_trait_items(trait_: &syn::ItemTrait) -> R {
+    let items = trait_
+        .items
+        .iter()
+        .map(|item| -> R {
+            Ok(match item {
+                syn::TraitItem::Const(x) => {
+                    if !x.generics.params.is_empty() || x.generics.where_clause.is_some() {
+                        return Err("generic item".into());
+                    }
+                    node("TIConst", &x.ident.to_string(), vec![ser_type(&x.ty)?])
+                }
+                syn::TraitItem::Type(x) => {
+                    if !x.generics.params.is_empty() || x.generics.where_clause.is_some() {
+                        return Err("generic item".into());
+                    }
+                    leaf("TIType", &x.ident.to_string())
+                }
+                syn::TraitItem::Fn(x) => {
+                    let sig = &x.sig;
+                    if !sig.generics.params.is_empty() || sig.generics.where_clause.is_some() {
+                        return Err("generic method".into());
+                    }
+                    if sig.constness.is_some() || sig.asyncness.is_some() || sig.unsafety.is_some() || sig.abi.is_some() || sig.variadic.is_some() {
+                        return Err("fn qualifiers".into());
+                    }
+                    let inputs = ser_list(&sig.inputs, |arg| match arg {
+                        syn::FnArg::Receiver(recv) => Ok(leaf("Recv", &toks(recv))),
+                        syn::FnArg::Typed(arg) => Ok(node("Arg", &toks(&arg.pat), vec![ser_type(&arg.ty)?])),
+                    })?;
+                    node("TIFn", &sig.ident.to_string(), vec![inputs, ser_ret(&sig.output)?])
+                }
+                _ => return Err("trait item kind".into()),
+            })
+        })
+        .collect::<Result<Vec<_>, _>>()?;
+    Ok(node("TraitItems", "", items))
+}
+
 fn ser_grouping(groups: &ImplGroups, canonical: &[syn::ItemImpl]) -> R {
     let mut out = Vec::new();
     for (id, group) in &groups.impl_groups {
@@ -996,11 +1036,25 @@ fn respond(line: &str) -> R {
             };
             let main_trait = groups.item_trait_;
             let mut mains = Vec::new();
+            let mut main_items = Vec::new();
             for (idx, group) in groups.impl_groups.values().enumerate() {
                 let mut main = main_trait::generate(main_trait.as_ref(), idx, group).ok_or("no main impl")?;
+                // the items (forwarders) are reported apart: a body outside the serialized
+                // fragment must not hide the header
+                main_items.push(
+                    main.items
+                        .iter()
+                        .map(ser_impl_item)
+                        .collect::<Result<Vec<_>, _>>()
+                        .map_or_else(|err| leaf("Unsupported", &err), |items| node("Items", "", items)),
+                );
                 main.items.clear();
                 mains.push(ser_item_impl(&main)?);
             }
+            let trait_items = match &trait_ {
+                None => leaf("NoTrait", ""),
+                Some(trait_) => ser_trait_items(trait_).unwrap_or_else(|err| leaf("Unsupported", &err)),
+            };
             let mut helpers = Vec::new();
             for (idx, group) in groups.impl_groups.values().enumerate() {
                 let helper = helper_trait::generate(main_trait.as_ref(), idx, group).ok_or("no helper trait")?;
@@ -1012,6 +1066,8 @@ fn respond(line: &str) -> R {
                 grouping,
                 node("MainImpls", "", mains),
                 node("HelperTraits", "", helpers),
+                node("MainItems", "", main_items),
+                trait_items,
             ]))
         }
         // serialize a world (ground impls of dispatch traits) and ground queries
